@@ -187,7 +187,10 @@ def finalizeMessageR (env : Env) (m : Msg) : R Unit := do
         stateSetR st_ACTIVE
       else pure ()
     else pure ()
-    R.modify fun c => { c with lastTime := env.now }
+    let c' ← R.get
+    -- fix 5623bd4: the receive time is stamped only while connected
+    if c'.state > st_DISCONNECTED_BROKEN_CONN then R.modify fun c => { c with lastTime := env.now }
+    else pure ()
     R.liftM (persistInbound m)
 
 /-- `_process_testrequest` -/
@@ -288,9 +291,11 @@ def tickBodyR (env : Env) : R Unit := do
   if !c.sock then pure ()
   else do
     if c.state == st_ACTIVE then
-      if env.now - c.lastTime > (c.hb - 1) * 1000 then do
-        if c.testReqId.getD 0 == 0 then sendTestReqR env else pure ()
-        R.modify fun c => { c with lastTime := env.now }
+      if env.now - c.lastTime > (c.hb - 1) * 1000 then
+        if c.testReqId.getD 0 == 0 then do
+          sendTestReqR env
+          R.modify fun c => { c with lastTime := env.now }
+        else pure ()
       else pure ()
     else pure ()
     let c1 ← R.get
@@ -298,7 +303,8 @@ def tickBodyR (env : Env) : R Unit := do
       disconnectR env st_DISCONNECTED_BROKEN_CONN none
     else pure ()
     let c2 ← R.get
-    if c2.testReqId.getD 0 != 0 && env.now - (c2.testReqId.getD 0) * 1000 > c2.hb * 2 * 1000 then
+    if c2.testReqId.getD 0 != 0 && env.now - (c2.testReqId.getD 0) * 1000 > c2.hb * 2 * 1000
+        && env.now - c2.lastTime > c2.hb * 2 * 1000 then
       disconnectR env st_DISCONNECTED_BROKEN_CONN none
     else pure ()
 
